@@ -150,16 +150,16 @@ theorem last_of_mem {s : EphVerif.StoreSpec.S} {e : Entry} (h : e ∈ s) : ∃ e
       · exact ih h
 
 /-- the model's answer to every operation is accepted by the specification -/
-theorem judge_step {nc : NodeCfg} (hs : SaneCfg nc) {w : World} {a : W} (h : Rel w a) (op : Op) :
-    judge (paramsOf nc) a op (step nc w op).2 = none := by
+theorem judge_stepF {nc : NodeCfg} (hs : SaneCfg nc) (φ : Faults) {w : World} {a : W} (h : Rel w a) (op : Op) :
+    judge (paramsOf nc) a op (stepF nc φ w op).2 = none := by
   cases op with
   | store id data ttl nonce enc => rfl
   | nstore id plain cipher nonce ttl => rfl
-  | lookup id => simp [step, judge, get_eq_readWire h]
-  | record id => simp [step, judge, recObs, record_eq_readRecord h]
-  | fetch id => simp [step, judge, fetch_eq_read h]
+  | lookup id => simp [stepF, judge, get_eq_readWire h]
+  | record id => simp [stepF, judge, recObs, record_eq_readRecord h]
+  | fetch id => simp [stepF, judge, fetch_eq_read h]
   | request id =>
-    simp only [step, judge]
+    simp only [stepF, judge]
     cases hq : nodeRequest nc w.sys.recs w.now id with
     | some b => simp [request_some h hq]
     | none =>
@@ -171,7 +171,7 @@ theorem judge_step {nc : NodeCfg} (hs : SaneCfg nc) {w : World} {a : W} (h : Rel
         simp only [paramsOf] at this ⊢
         simp [this]
   | list =>
-    simp only [step, judge]
+    simp only [stepF, judge]
     have h1 : ((nodeList w.sys.recs w.now).map (fun e => (e.1, e.2.1))).any (fun e => !live a.s e.1 a.now) = false := by
       rw [List.any_eq_false]
       intro x hx
@@ -196,11 +196,14 @@ theorem judge_step {nc : NodeCfg} (hs : SaneCfg nc) {w : World} {a : W} (h : Rel
   | sweep => rfl
   | tick =>
     by_cases hc : w.now - w.lastCleanup ≥ nc.cleanupInterval * nsPerSec
-    · have : (step nc w .tick).2 = .removed (sysSweep nc.store w.sys w.now).2 := by
-        simp [step, nodeTick, hc]
+    · have : (stepF nc φ w .tick).2 = .removed (sysSweepF nc.store φ w.sys w.now).2 := by
+        simp [stepF, nodeTickF, hc]
       rw [this]; rfl
-    · have : (step nc w .tick).2 = .unit := by simp [step, nodeTick, hc]
+    · have : (stepF nc φ w .tick).2 = .unit := by simp [stepF, nodeTickF, hc]
       rw [this]; rfl
   | advance d => rfl
+
+theorem judge_step {nc : NodeCfg} (hs : SaneCfg nc) {w : World} {a : W} (h : Rel w a) (op : Op) :
+    judge (paramsOf nc) a op (step nc w op).2 = none := judge_stepF hs [] h op
 
 end EphVerif.ChunkStore
